@@ -912,6 +912,16 @@ func genHistory(hg *histGen, t *Ty, v *Val, route string, length int, h tree.Has
 			return nil, "BUILD-ERR"
 		}
 	}
+	if hg.memos && hg.r.Intn(2) == 0 {
+		// the root view reports every new backing to its owner (a caller-supplied BackingHook),
+		// and the owner asks for its root at once - a root request placed inside the mutation
+		if rv, err := t.Def().ViewFromBacking(root.Backing(), func(b tree.Node) error {
+			b.MerkleRoot(h)
+			return nil
+		}); err == nil {
+			root = rv
+		}
+	}
 	s.push(t, root)
 	var sb strings.Builder
 	for k := 0; k < length; k++ {
